@@ -128,6 +128,10 @@ def check_tap(ctx, log, spec, axis, desc):
 def as_collection(r, ids, kind, axis_len=None):
     ids = list(ids)
     r.shuffle(ids)
+    if kind in ('dup-padded-ndarray', 'dup-padded-tuple'):
+        lst = as_collection(r, ids, 'dup-padded', axis_len)
+        return np.array(lst, dtype=str) if kind.endswith('ndarray') and lst \
+            else tuple(lst)
     if kind == 'dup-padded':
         # ids repeated until the request is as long as the axis (or one
         # longer): a request is a set of ids, however often each is named
@@ -175,7 +179,8 @@ def as_collection(r, ids, kind, axis_len=None):
 COLLS = ['list', 'tuple', 'set', 'frozenset', 'ndarray', 'objarray',
          'dictkeys', 'duplist', 'generator', 'iterator', 'map',
          'pandas-index', 'pandas-series', 'deque', 'dictvalues',
-         'dup-padded', 'dup-padded']
+         'dup-padded', 'dup-padded', 'dup-padded-ndarray',
+         'dup-padded-tuple']
 
 
 def note_layout(ctx, t):
